@@ -333,6 +333,11 @@ func emitQueryCascade(fs *strings.Builder, p *pkg) {
 	who := file + ":ParseQuery"
 	stmts := loop.Body.List
 	val := "val"
+	for _, st := range stmts {
+		if as, ok := st.(*ast.AssignStmt); ok && as.Tok == token.DEFINE && len(as.Lhs) == 1 && len(as.Rhs) == 1 && src(as.Rhs[0]) == "req.Form.Get(key)" {
+			val = src(as.Lhs[0])
+		}
+	}
 	stores := func(st ast.Stmt, v string) bool { // the branch hands the parser's value on
 		t := src(st)
 		return strings.HasPrefix(t, "params[key] = ") || strings.HasPrefix(t, "return ") && strings.HasSuffix(t, ", nil") && !strings.Contains(t, "Errorf") && !strings.Contains(t, "errors.")
@@ -344,6 +349,9 @@ func emitQueryCascade(fs *strings.Builder, p *pkg) {
 	hasChain := func(list []ast.Stmt) bool {
 		for _, st := range list {
 			if is, ok := st.(*ast.IfStmt); ok && is.Init != nil && strings.Contains(src(is.Init), "parseJSONString(") {
+				return true
+			}
+			if as, ok := st.(*ast.AssignStmt); ok && strings.Contains(src(as), "parseJSONString(") {
 				return true
 			}
 		}
@@ -384,69 +392,83 @@ func emitQueryCascade(fs *strings.Builder, p *pkg) {
 			fail("%s: the typing cascade was not found", who)
 		}
 	}
+	// one pass over the statements, whatever their arrangement (an if / else-if chain with init
+	// statements, a sequence of ifs that return, flat guards that `continue`): an assignment or init
+	// `x, ok[, err] := parseY(val)` makes parseY the parser being consulted; a test of its `err`
+	// refuses the query, a test of its `ok` hands its value on
 	var items []string
-	cur := ""
+	cur, okVar := "", ""
 	done := false
-	var walk func(node ast.Stmt)
-	walk = func(node ast.Stmt) {
-		for node != nil && !done {
-			switch v := node.(type) {
-			case *ast.IfStmt:
-				if v.Init != nil {
-					as, ok := v.Init.(*ast.AssignStmt)
-					if !ok || len(as.Rhs) != 1 {
-						fail("%s: unsupported init %q", who, src(v.Init))
-					}
-					call, ok := as.Rhs[0].(*ast.CallExpr)
-					if !ok || len(call.Args) != 1 || src(call.Args[0]) != val {
-						fail("%s: unsupported init %q", who, src(v.Init))
-					}
-					cur = src(call.Fun)
-				}
-				kind := ""
-				switch src(v.Cond) {
-				case "err != nil":
-					kind = "err"
-					if n := len(v.Body.List); n != 1 || !refuses(v.Body.List[0]) {
-						fail("%s: the error branch of %s does not return the error", who, cur)
-					}
-				case "ok":
-					kind = "ok"
-					if n := len(v.Body.List); n != 1 || !stores(v.Body.List[0], "") {
-						fail("%s: the success branch of %s does not hand the value on", who, cur)
-					}
-				default:
-					fail("%s: unsupported condition %q", who, src(v.Cond))
-				}
-				items = append(items, "("+strconv.Quote(cur)+", "+strconv.Quote(kind)+")")
-				node = v.Else
-			case *ast.BlockStmt:
-				if len(v.List) != 1 || src(v.List[0]) != "params[key] = "+val {
-					fail("%s: the final branch does not store the literal value", who)
-				}
+	bind := func(st ast.Stmt) bool {
+		as, ok := st.(*ast.AssignStmt)
+		if !ok || len(as.Rhs) != 1 || len(as.Lhs) < 2 {
+			return false
+		}
+		call, ok := as.Rhs[0].(*ast.CallExpr)
+		if !ok || len(call.Args) != 1 || src(call.Args[0]) != val {
+			return false
+		}
+		if _, isIdent := call.Fun.(*ast.Ident); !isIdent {
+			return false
+		}
+		cur, okVar = src(call.Fun), src(as.Lhs[1])
+		return true
+	}
+	var visit func(st ast.Stmt)
+	visit = func(st ast.Stmt) {
+		if done || st == nil {
+			return
+		}
+		switch v := st.(type) {
+		case *ast.BlockStmt:
+			for _, x := range v.List {
+				visit(x)
+			}
+		case *ast.AssignStmt:
+			if bind(v) {
+				return
+			}
+			if src(v) == "params[key] = "+val && cur != "" {
 				items = append(items, `("", "literal")`)
 				done = true
-				node = nil
-			default:
-				node = nil
 			}
+		case *ast.ReturnStmt:
+			if src(v) == "return "+val+", nil" && cur != "" {
+				items = append(items, `("", "literal")`)
+				done = true
+			}
+		case *ast.IfStmt:
+			if v.Init != nil && !bind(v.Init) {
+				if cur != "" {
+					fail("%s: unsupported init %q", who, src(v.Init))
+				}
+				return
+			}
+			if cur == "" {
+				return
+			}
+			switch src(v.Cond) {
+			case "err != nil":
+				if n := len(v.Body.List); n != 1 || !refuses(v.Body.List[0]) {
+					fail("%s: the error branch of %s does not return the error", who, cur)
+				}
+				items = append(items, "("+strconv.Quote(cur)+`, "err")`)
+			case okVar:
+				if n := len(v.Body.List); n < 1 || !stores(v.Body.List[0], "") {
+					fail("%s: the success branch of %s does not hand the value on", who, cur)
+				}
+				items = append(items, "("+strconv.Quote(cur)+`, "ok")`)
+			default:
+				fail("%s: unsupported condition %q", who, src(v.Cond))
+			}
+			visit(v.Else)
 		}
 	}
 	for _, st := range stmts {
-		if done {
-			break
-		}
-		switch v := st.(type) {
-		case *ast.IfStmt:
-			if v.Init != nil || len(items) > 0 {
-				walk(v)
-			}
-		case *ast.ReturnStmt:
-			if len(items) > 0 && src(v) == "return "+val+", nil" {
-				items = append(items, `("", "literal")`)
-				done = true
-			}
-		}
+		visit(st)
+	}
+	if !done {
+		fail("%s: the cascade does not end with the literal value", who)
 	}
 	fmt.Fprintf(fs, "/-- %s: the cascade that types one query value: parser consulted, branch taken (`err` = the query is refused, `ok` = the parser's value is handed on) -/\ndef queryCascade : List (String × String) := [%s]\n\n", who, strings.Join(items, ", "))
 }
